@@ -88,6 +88,7 @@ func checkC18(c *Ctx) {
 	c.c18Total()
 	c.c18Attr()
 	c.c18CSS()
+	c.c18DeclarationEnds()
 	c.c18Text()
 	c.c18UI()
 	// "sanitising never fails or panics": the index class of panics in the sanitiser's own code
@@ -2394,4 +2395,158 @@ func wrapsFilter(f, filter *ssa.Function) bool {
 		}
 	})
 	return ok && n > 0
+}
+
+// c18DeclarationEnds: "style attributes contain only declarations whose property is on the
+// allow-list". The filter consults the allow-list once per declaration, so a declaration has to
+// end where CSS says it ends: in a state that copies value tokens, a ';' token always hands
+// over to the state that looks the next property up. A copying state that stays in itself after
+// a ';' (because of a counter that input can drive negative, say) copies every later declaration
+// unexamined. Decided for filters whose states are function values (func(…) stateHandler); other
+// representations are left to the state-machine rule.
+func (c *Ctx) c18DeclarationEnds() {
+	r, p := c.R, c.P
+	rule := "C18/CSS/declaration-ends"
+	r.Rule(rule, "in every function-valued CSS state that writes Token.Value without the allow-list lookup, every path from the edge `Token.Value == \";\"` to a return yields the state that performs the lookup")
+	var allowedG *ssa.Global
+	if sp := p.SSA.Package(p.Pkg(sanRel)); sp != nil {
+		allowedG, _ = sp.Members["allowedProperties"].(*ssa.Global)
+	}
+	if allowedG == nil {
+		return
+	}
+	isTokenValue := func(v ssa.Value) bool {
+		f := eng.LoadedField(v)
+		return f != nil && f.Name() == "Value" && f.Pkg() != nil && strings.HasSuffix(f.Pkg().Path(), "css/scanner")
+	}
+	returnsFunc := func(fn *ssa.Function) bool {
+		res := fn.Signature.Results()
+		if res.Len() != 1 {
+			return false
+		}
+		_, isSig := res.At(0).Type().Underlying().(*types.Signature)
+		return isSig
+	}
+	var all []*ssa.Function
+	for _, fn := range pkgFuncs(p, sanRel) {
+		all = append(all, fn)
+		all = append(all, fn.AnonFuncs...)
+	}
+	looksUp := func(fn *ssa.Function) bool {
+		found := false
+		eng.EachInstr(fn, func(in ssa.Instruction) {
+			if lk, ok := in.(*ssa.Lookup); ok {
+				if u, ok := lk.X.(*ssa.UnOp); ok && u.X == ssa.Value(allowedG) {
+					found = true
+				}
+			}
+		})
+		return found
+	}
+	n := 0
+	for _, fn := range all {
+		if !returnsFunc(fn) || len(fn.Blocks) == 0 || looksUp(fn) {
+			continue
+		}
+		// copies token text?
+		copies := false
+		eng.EachInstr(fn, func(in ssa.Instruction) {
+			if call, ok := in.(*ssa.Call); ok {
+				for _, a := range call.Call.Args {
+					if isTokenValue(a) {
+						copies = true
+					}
+				}
+			}
+		})
+		if !copies {
+			continue
+		}
+		fn := fn
+		for _, b := range fn.Blocks {
+			for k := 0; k < len(b.Succs) && len(b.Succs) == 2; k++ {
+				rel, ok := eng.EdgeRel(b, k)
+				if !ok || rel.Op != token.EQL {
+					continue
+				}
+				x, y := rel.X, rel.Y
+				if ks, isK := eng.ConstString(x); isK && ks == ";" {
+					x, y = y, x
+				}
+				ks, isK := eng.ConstString(y)
+				if !isK || ks != ";" || !isTokenValue(x) {
+					continue
+				}
+				n++
+				cons := "semicolon@" + shortFn(fn)
+				// enumerate the paths from the edge to the returns; a φ takes the value of the edge
+				// the path came in by
+				bad := ""
+				var walk func(blk, pred *ssa.BasicBlock, phis map[*ssa.Phi]ssa.Value, depth int)
+				seen := map[[2]int]bool{}
+				walk = func(blk, pred *ssa.BasicBlock, phis map[*ssa.Phi]ssa.Value, depth int) {
+					if bad != "" || depth > 40 {
+						return
+					}
+					key := [2]int{blk.Index, -1}
+					if pred != nil {
+						key[1] = pred.Index
+					}
+					if seen[key] {
+						return
+					}
+					seen[key] = true
+					np := map[*ssa.Phi]ssa.Value{}
+					for a, v := range phis {
+						np[a] = v
+					}
+					for _, in := range blk.Instrs {
+						switch x := in.(type) {
+						case *ssa.Phi:
+							for pi, pb := range blk.Preds {
+								if pb == pred && pi < len(x.Edges) {
+									e := x.Edges[pi]
+									if q, isQ := e.(*ssa.Phi); isQ {
+										if qv, has := np[q]; has {
+											e = qv
+										}
+									}
+									np[x] = e
+								}
+							}
+						case *ssa.Return:
+							rv := x.Results[0]
+							for {
+								if ct, isCT := rv.(*ssa.ChangeType); isCT {
+									rv = ct.X
+									continue
+								}
+								break
+							}
+							if q, isQ := rv.(*ssa.Phi); isQ {
+								if qv, has := np[q]; has {
+									rv = qv
+								}
+							}
+							rv = eng.ResolveLocalLoad(rv)
+							g, _, isFn := eng.FuncValueOf(rv)
+							if !isFn || !looksUp(g) {
+								bad = p.InstrPos(x)
+							}
+						}
+					}
+					for _, sb := range blk.Succs {
+						walk(sb, blk, np, depth+1)
+					}
+				}
+				walk(b.Succs[k], b, map[*ssa.Phi]ssa.Value{}, 0)
+				if bad != "" {
+					r.Bad(rule, cons, p.InstrPos(b.Instrs[len(b.Instrs)-1]), "after a ';' this copying state can return (at %s) something other than the state that looks the next property up: the declaration does not end there, and the declarations that follow are copied without the allow-list being asked — `position: fixed`, `background-image: url(…)` and the rest reach the page", bad)
+				} else {
+					r.Ok(rule, cons, p.InstrPos(b.Instrs[len(b.Instrs)-1]), "a ';' always hands over to the state that consults the allow-list")
+				}
+			}
+		}
+	}
+	r.Count(rule+": ';' edges in copying states", n)
 }
